@@ -14,6 +14,7 @@
 #include "../../sim/driver.h"
 #include "../../sim/symtab.h"
 #include "../../spec/wire.h"
+#include "../reent/drivers.h"
 
 using sim::Rng;
 using sim::strf;
@@ -71,7 +72,7 @@ static std::string gen(const std::string &prop, uint64_t base, uint64_t idx, boo
     int ntasks = (int)r.range(1, 4);
     line(strf("plan v1 engine=" REC_ENGINE_NAME " prop=%s seed=0x%llx idx=%llu", prop.c_str(), (unsigned long long)seed, (unsigned long long)idx));
     line(strf("cfg tasks=%d gseed=0x%llx", ntasks, (unsigned long long)r.next()));
-    struct B { int id, task; const BindFormat *f; };
+    struct B { int id, task; const BindFormat *f; int pay; };
     std::vector<B> bufs;
     int id = 0;
     for (int t = 0; t < ntasks; t++) {
@@ -81,6 +82,7 @@ static std::string gen(const std::string &prop, uint64_t base, uint64_t idx, boo
             std::string fn = f->name;
             bool cf = fn == "Tscf" || fn == "Ntscf";
             int pay = (int)r.range(0, 6) * 4;
+            if ((fn == "Can" || fn == "CanBrief") && r.chance(0.6)) pay = 68;  // room for the message builders (64 bytes of payload + padding)
             std::vector<std::pair<const BindFormat *, int>> subs;
             if (cf && r.chance(0.6)) {
                 int off = 0, ns = (int)r.range(1, 3);
@@ -95,10 +97,10 @@ static std::string gen(const std::string &prop, uint64_t base, uint64_t idx, boo
             int me = id++;
             // placement: every byte address (results may depend only on the buffer's bytes, not on where it lies)
             line(strf("buf id=%d task=%d fmt=%s pay=%d align=%d", me, t, f->name, pay, (int)(r.chance(0.5) ? 0 : r.below(8))));
-            bufs.push_back({me, t, f});
+            bufs.push_back({me, t, f, pay});
             for (auto &s : subs) {
                 line(strf("buf id=%d task=%d fmt=%s parent=%d off=%d", id, t, s.first->name, me, s.second));
-                bufs.push_back({id, t, s.first});
+                bufs.push_back({id, t, s.first, 0});
                 id++;
             }
         }
@@ -110,6 +112,14 @@ static std::string gen(const std::string &prop, uint64_t base, uint64_t idx, boo
         if (r.chance(0.4)) cur = (int)r.below(bufs.size());
         const B &b = bufs[cur];
         const BindFormat *f = b.f;
+        if (b.pay >= 68 && r.chance(0.12)) {
+            // the ACF-CAN message builders are compound writes: payload copy, identifier/EFF/FDF, length and pad fields, zeroed padding
+            static const char *kinds[] = {"create", "create", "setpayload", "finalize"};
+            unsigned len = (unsigned)(r.chance(0.3) ? (unsigned[]){0, 1, 3, 4, 5, 8, 12, 63, 64}[r.below(9)] : r.below(65));
+            uint32_t bid = (uint32_t)(r.chance(0.4) ? (uint32_t[]){0, 1, 0x7ff, 0x800, 0x1fffffff, 0x20000000, 0xffffffffu}[r.below(7)] : r.next());
+            line(strf("op b=%d build kind=%s id=0x%x len=%u variant=%d dseed=0x%llx", b.id, kinds[r.below(4)], bid, len, (int)r.below(2), (unsigned long long)r.next()));
+            continue;
+        }
         unsigned k = (unsigned)r.below(100);
         auto pick_field = [&](bool prefer_written) -> const BindField * {
             auto &w = written[b.id];
@@ -423,6 +433,39 @@ static void exec(const std::string &text, bool verbose) {
             if (with_init) b.wr_seq.clear();
             continue;
         }
+        if (what == "build") {
+            std::string fmt = f->name, kind = kv.str("kind");
+            bool brief = fmt == "CanBrief";
+            if ((fmt != "Can" && !brief) || b.parent >= 0) continue;
+            size_t hdr = f->spec_bytes, len = kv.u64("len");
+            size_t pad = (4 - len % 4) % 4;
+            if (len > 64 || b.off + hdr + len + pad > a.size - kGuard) continue;
+            uint32_t cid = (uint32_t)kv.u64("id");
+            int variant = (int)kv.u64("variant") & 1;
+            std::vector<uint8_t> src(len + 1);
+            Rng dr(kv.u64("dseed", 1));
+            for (auto &x : src) x = (uint8_t)dr.next();
+            ev("build", strf("b=%d %s kind=%s id=0x%x len=%zu variant=%d", b.id, f->name, kind.c_str(), cid, len, variant));
+            auto mset = [&](const char *name, uint64_t v) { const BindField *fl = find_field(f, name); if (fl) wire::set_bits(mpdu, fl->bit, fl->width, v & mask_w(fl->width)); };
+            auto m_payload = [&] { memcpy(mpdu + hdr, src.data(), len); };
+            auto m_finalize = [&] { memset(mpdu + hdr + len, 0, pad); mset("ACF_MSG_LENGTH", (hdr + len + pad) / 4); mset("PAD", pad); };
+            if (kind == "setpayload" && !brief) { drv_can_setpayload(pdu, src.data(), (uint16_t)len); m_payload(); }
+            else if (kind == "finalize") { if (brief) drv_canbrief_finalize(pdu, (uint16_t)len); else drv_can_finalize(pdu, (uint16_t)len); m_finalize(); }
+            else {
+                if (brief) drv_canbrief_setpayload(pdu, cid, src.data(), (uint16_t)len, variant); else drv_can_create(pdu, cid, src.data(), (uint16_t)len, variant);
+                m_payload(); mset("EFF", cid > 0x7ff); mset("CAN_IDENTIFIER", cid); mset("FDF", (uint64_t)variant); m_finalize();
+                kind = "create";
+            }
+            per_entry["entry.build." + kind]++;
+            check_bytes(strf("%s.<build>:%s", f->name, kind.c_str()), strf("after the %s builder (%s) with id 0x%x, %zu payload bytes, variant %d", f->name, kind.c_str(), cid, len, variant));
+            // what the message says about its own payload must agree as well
+            if (!brief && (kind == "create" || kind == "finalize")) {
+                uint64_t got = drv_can_payload_length(pdu);
+                if (got != len) violation(strf("read:%s.<payload-length>", f->name), strf("Avtp_Can_GetCanPayloadLength returned %llu after the %s builder ran with %zu payload bytes", (unsigned long long)got, kind.c_str(), len));
+            }
+            b.has_last = false;
+            continue;
+        }
         if (what == "again") {
             if (!b.has_last) continue;
             const BindField *fl = find_field(f, b.last_field);
@@ -534,11 +577,11 @@ int main(int argc, char **argv) {
     e.deletable = [](const std::string &l) { return l.compare(0, 2, "op") == 0; };
     e.rule = "one run = one seeded history: 1-4 caller tasks, 1-3 PDU buffers each (all 23 header formats, stratified by run index; ACF messages also laid out "
              "inside TSCF/NTSCF buffers), 3-300 operations (init, write, read through generic/dedicated/legacy entry points, repeat, two writes in both orders on clones, "
-             "relocation) interleaved over the buffers, boundary-biased values; distinct = distinct event-log digest; non-trivial = some field is read after a later "
+             "relocation, the ACF-CAN / CAN-brief message builders as compound writes) interleaved over the buffers, boundary-biased values; distinct = distinct event-log digest; non-trivial = some field is read after a later "
              "write to a different field of the same quadlet";
     e.probes = {"probe.cross_quadlet_field_written", "probe.value_wider_than_field", "probe.relocation_between_write_and_read", "probe.legacy_write_current_read",
                 "probe.task_switch_between_write_and_read", "probe.acf_message_inside_control_pdu", "entry.set.gen", "entry.set.ded", "entry.set.leg",
-                "entry.get.gen", "entry.get.ded", "entry.get.leg", "entry.init.cur", "entry.init.legacy", "entry.fused", "value.derived",
+                "entry.get.gen", "entry.get.ded", "entry.get.leg", "entry.init.cur", "entry.init.legacy", "entry.fused", "entry.build.create", "entry.build.finalize", "entry.build.setpayload", "value.derived",
                 "probe.unaligned_placement"};
     e.real_components = {"libopen1722 + libopen1722custom objects built from /repo/src (working tree)", "call bindings generated from /repo/include at build time"};
     e.stub_components = {"callers (seeded histories)", "reference model: spec/fields.def + bit-at-a-time packer (spec/wire.h)"};
